@@ -638,8 +638,9 @@ def setHref (fuel : Nat) (vfs : Vfs) (who : Who) (chain : List Str) (href media 
     match chain with
     | [] => ⟨.error .unsupported, []⟩                       -- parent sheet without href: cwd, not modelled
     | parentHref :: _ =>
-      match urljoin parentHref href with                    -- :311, outside the try
-      | .error e => ⟨.error e, []⟩
+      match urljoin parentHref href with                    -- inside the try since cdb1459
+      | .error .valueError => ⟨.ok (notLoaded href media), []⟩      -- malformed URL: ValueError is caught, not found
+      | .error e => ⟨.error e, []⟩                          -- (only `unsupported`: outside the modelled fragment)
       | .ok full =>
         if full ∈ chain then ⟨.ok (notLoaded href media), []⟩          -- :317-323 recursive @import
         else
